@@ -129,6 +129,27 @@ Section Trans.
              | Some r => if shape_eqb (tl (a_shape r)) (data_shape h) then LOk r else LErrData
              end
          end.
+
+  (** Input.pull_data (sdk/input.py 95-137): a static input converts the data of its source once
+      and answers every later pull from [_cached_data] (the cache stays empty when the conversion
+      raised); a non-static input converts every data set it fetches exactly once. *)
+  Definition pull_input (static : bool) (g h : grid) (cache : option (arr A)) (d : arr A)
+    : option (arr A) * lres :=
+    if static then
+      match cache with
+      | Some r => (cache, LOk r)
+      | None => let res := link_deliver g h d in
+                (match res with LOk r => Some r | _ => None end, res)
+      end
+    else (cache, link_deliver g h d).
+
+  (** [n] successive reads of a static input whose source holds [d] *)
+  Fixpoint static_reads (g h : grid) (cache : option (arr A)) (d : arr A) (n : nat) : list lres :=
+    match n with
+    | 0 => []
+    | S n' => let '(cache', res) := pull_input true g h cache d in
+              res :: static_reads g h cache' d n'
+    end.
 End Trans.
 
 (** * Specification vocabulary *)
@@ -172,9 +193,34 @@ Definition ares_of (o : option (arr val)) : ares :=
 Definition obind {X Y : Type} (o : option X) (f : X -> option Y) : option Y :=
   match o with Some x => f x | None => None end.
 
+Definition lres_ares (r : @lres val) : ares :=
+  match r with
+  | LOk a => AOk (a_shape a) (list_of_arr a)
+  | LErrValue => AErr 1
+  | LErrMeta => AErr 2
+  | LErrData => AErr 3
+  end.
+
+(** a script on one link: [Some (shape, vals)] = the source publishes a data set (as it reaches the
+    input, i.e. with time axis), [None] = the input pulls (the most recent data set) *)
+Definition seq_op : Type := option (list nat * list val).
+Fixpoint run_seq (static : bool) (g h : grid) (cur : option (arr val)) (cache : option (arr val))
+  (ops : list seq_op) : list ares :=
+  match ops with
+  | [] => []
+  | Some (shp, vals) :: r => run_seq static g h (Some (arr_of_list None shp vals)) cache r
+  | None :: r =>
+      match cur with
+      | None => AErr 4 :: run_seq static g h cur cache r
+      | Some d => let '(cache', res) := pull_input static g h cache d in
+                  lres_ares res :: run_seq static g h cur cache' r
+      end
+  end.
+
 Inductive c15_case : Type :=
 | CMethods (sg : gspec) (lg : layout) (sh : gspec) (lh : layout) (shape : list nat) (vals : list val)
-| CLink (sg : gspec) (lg : layout) (sh : gspec) (lh : layout) (shape : list nat) (vals : list val).
+| CLink (sg : gspec) (lg : layout) (sh : gspec) (lh : layout) (shape : list nat) (vals : list val)
+| CLinkSeq (sg : gspec) (lg : layout) (sh : gspec) (lh : layout) (static : bool) (ops : list seq_op).
 
 Definition c15_obs : Type := (list ares * list bool)%type.
 
@@ -199,12 +245,12 @@ Definition c15_model (c : c15_case) : option c15_obs :=
   | CLink sg lg sh lh shape vals =>
       match build sg lg, build sh lh with
       | Some g, Some h =>
-          Some ([ match link_deliver g h (arr_of_list None shape vals) with
-                  | LOk a => AOk (a_shape a) (list_of_arr a)
-                  | LErrValue => AErr 1
-                  | LErrMeta => AErr 2
-                  | LErrData => AErr 3
-                  end ], [])
+          Some ([ lres_ares (link_deliver g h (arr_of_list None shape vals)) ], [])
+      | _, _ => None
+      end
+  | CLinkSeq sg lg sh lh static ops =>
+      match build sg lg, build sh lh with
+      | Some g, Some h => Some (run_seq static g h None None ops, [])
       | _, _ => None
       end
   end.
